@@ -2,9 +2,11 @@
   The constants and statements of the emitted lexer (templates/lexer.go.tmpl) that the models follow, as the translator
   prints them. Hand-written expectation: `Emerge.Inst.LexerTmpl` proves the regenerated strings are these.
 
-    NextToken / evalToken          ~ Emerge.Emitted.segments / scan (count-based end-of-input evaluation, blanks not
-                                     matched by any token discarded through Skip, stray character = lexical error,
-                                     Retract of one rune, skipped terminals WS/EOL/COMMENT re-enter NextToken)
+    NextToken / scanToken /        ~ Emerge.Emitted.segments / scan (count-based end-of-input evaluation, blanks not
+    evalToken                        matched by any token discarded through Skip, stray character = lexical error,
+                                     Retract of one rune; scanToken reports a token of a terminal named WS/EOL/COMMENT as
+                                     skipped and NextToken scans on, in a loop; an invalid final state is the second
+                                     result of evalDFA, whatever the terminals are called)
     New                            ~ the reader is created with bufferSize (Emerge.Reader.init with n = 4096)
     evalDFA / advanceDFA templates ~ Emerge.Lexgen.evalRows / evalSwitch (C08): one `case` per final-state group /
                                      per source state and symbol group, default errorState / ERR token
@@ -25,11 +27,13 @@ def const_COMMENT : String := "Terminal(\"COMMENT\")"
 
 def body_New : String := "{ in, err := newInput(filename, src, bufferSize) if err != nil { return nil, err } return &Lexer{ in: in, }, nil }"
 
-def body_NextToken : String := "{ curr, n := 0, 0 for { r, err := l.in.Next() if err != nil { if errors.Is(err, io.EOF) && n > 0 { return l.evalToken(curr) } return Token{}, err } next := advanceDFA(curr, r) if next == errorState { if n == 0 { if r == ' ' || r == '\\t' || r == '\\n' || r == '\\r' { l.in.Skip() continue } return l.evalToken(errorState) } l.in.Retract() return l.evalToken(curr) } curr = next n++ } }"
+def body_NextToken : String := "{ for { if token, skipped, err := l.scanToken(); !skipped { return token, err } } }"
 
-def body_evalToken : String := "{ token := l.evalDFA(state) switch token.Terminal { case ERR: return Token{}, errors.New(token.Lexeme) case WS, EOL, COMMENT: return l.NextToken() default: return token, nil } }"
+def body_scanToken : String := "{ curr, n := 0, 0 for { r, err := l.in.Next() if err != nil { if errors.Is(err, io.EOF) && n > 0 { return l.evalToken(curr) } return Token{}, false, err } next := advanceDFA(curr, r) if next == errorState { if n == 0 { if r == ' ' || r == '\\t' || r == '\\n' || r == '\\r' { l.in.Skip() continue } return l.evalToken(errorState) } l.in.Retract() return l.evalToken(curr) } curr = next n++ } }"
 
-def tmpl_evalDFA : String := "func (l *Lexer) evalDFA(state int) Token { switch state { {{- range .DFA.FinalStates }} {{- if .States }} case {{formatInts .States}}: lexeme, pos := l.in.Lexeme() return Token{Terminal: Terminal({{printf \"%q\" .Terminal}}), Lexeme: lexeme, Pos: pos} {{ end }} {{- end }} } val, pos := l.in.Lexeme() return Token{ Terminal: ERR, Lexeme: fmt.Sprintf(\"lexical error at %s:%s\", pos, val), Pos: pos, } }"
+def body_evalToken : String := "{ token, ok := l.evalDFA(state) if !ok { return Token{}, false, errors.New(token.Lexeme) } switch token.Terminal { case WS, EOL, COMMENT: return Token{}, true, nil default: return token, false, nil } }"
+
+def tmpl_evalDFA : String := "func (l *Lexer) evalDFA(state int) (Token, bool) { switch state { {{- range .DFA.FinalStates }} {{- if .States }} case {{formatInts .States}}: lexeme, pos := l.in.Lexeme() return Token{Terminal: Terminal({{printf \"%q\" .Terminal}}), Lexeme: lexeme, Pos: pos}, true {{ end }} {{- end }} } val, pos := l.in.Lexeme() return Token{ Terminal: ERR, Lexeme: fmt.Sprintf(\"lexical error at %s:%s\", pos, val), Pos: pos, }, false }"
 
 def tmpl_advanceDFA : String := "func advanceDFA(state int, r rune) int { switch state { {{- range .DFA.Transitions }} case {{.From}}: switch r { {{- range .Trans }} case {{formatRunes .Symbols}}: return {{.Next}} {{- end }} } {{ end }} } return errorState }"
 
